@@ -149,6 +149,21 @@ def run_cvc5(solver: z3.Solver, timeout_ms):
             pass
 
 
+def _has_quantifier(t, _seen=None):
+    seen = set() if _seen is None else _seen
+    stack = [t]
+    while stack:
+        x = stack.pop()
+        if x.get_id() in seen:
+            continue
+        seen.add(x.get_id())
+        if z3.is_quantifier(x):
+            return True
+        if z3.is_app(x):
+            stack.extend(x.children())
+    return False
+
+
 def discharge(ob, timeout_ms):
     t0 = time.time()
     goal = ob.goal
@@ -217,6 +232,25 @@ def discharge(ob, timeout_ms):
             ob.model = None
     else:
         ob.status, ob.backend = 'unknown', 'z3+cvc5'
+        # last resort for a counterexample: without the quantified hypotheses (auto lemmas, valuations) the query is
+        # ground and z3 can produce a model; it satisfies fewer hypotheses, so it is only a *candidate*: the caller
+        # replays it on the real code and keeps it only if the real code violates the contract on it
+        ground = [h for h in ob.hyps if not _has_quantifier(h)]
+        if len(ground) != len(ob.hyps) and not _has_quantifier(goal):
+            sg = z3.Solver()
+            sg.set('timeout', int(min(timeout_ms, 5000)))
+            fs = ground + [z3.Not(goal)]
+            for f in fs + recfuns.fuel(fs, 2):
+                sg.add(recfuns.abstract(f))
+            rg = sg.check()
+            ladder.append(f'z3-ground:{rg}')
+            if rg == z3.sat:
+                try:
+                    ob.model = sg.model()
+                    ob.status, ob.backend = 'refuted', 'z3 (candidate model, quantified hypotheses dropped)'
+                    ob.candidate = True
+                except z3.Z3Exception:
+                    ob.model = None
     ob.time = time.time() - t0
     ob.ladder = ladder
     return ob
